@@ -191,7 +191,15 @@ func (g *vfGraph) closure() [][]bool {
 // VF_C07_cycles: rejected for cycles iff the dependency relation over
 // services (through @service, !tagged, carried tags and decorators) is cyclic.
 func VF_C07_cycles() {
-	g := vfMakeGraph(vfBound("c07.services", 1, 2), false, true)
+	var g *vfGraph
+	if vfBound("c07.full", 0, 1) == 1 {
+		g = vfMakeGraph(2, false, true)
+	} else {
+		// quick: two services; s0 may carry a tag and refer to a service, s1 may refer to a
+		// service and request a tag; one decorator on a tag referring to a service
+		g = vfMakeGraphS(vfShape{nsvc: 2, tags: []bool{true, false}, refS: []bool{true, true}, refT: []bool{false, true},
+			refP: []bool{false, false}, decorator: true, dRefS: true})
+	}
 	err := ValidateCircularDeps(g.o)
 	r := g.closure()
 	cyclic := false
